@@ -474,4 +474,15 @@ theorem compile_complete (G : Grammar) (hwf : G.wf = true) (scan : Scan) (inp : 
       body w p q (rule_wf hwf hr) hsub hw hs
     exact drv_rule a r hrule hd
 
+/-! ### the input of the machine as the scanner-level model sees it (used by STAGE 4 and by the converse,
+`Proofs/EarleyTotalLang.lean`) -/
+
+/-- the input as the scanner-level model sees it -/
+def Input.toInp (inp : Input) : Scan.Inp := ⟨inp.cells, inp.rlen⟩
+
+theorem startsWith_eq : ∀ (xs s : List Nat), Scan.startsWith xs s = startsWith xs s
+  | _, [] => by simp [Scan.startsWith, startsWith]
+  | [], _ :: _ => by simp [Scan.startsWith, startsWith]
+  | a :: as, b :: bs => by simp [Scan.startsWith, startsWith, startsWith_eq as bs]
+
 end FV.Earley
